@@ -273,10 +273,27 @@ class Interp:
             self.path.memo[k] = VStr(t=z3.Const(fresh("s_" + tag), STR))
         return self.path.memo[k]
 
+    def str_parts(self, s):
+        """a string as the flat sequence of its concatenated pieces (concrete pieces as str, opaque ones as terms)"""
+        if s.c is not None:
+            return [s.c] if s.c != "" else []
+        return self.path.memo.get(("strparts", tid(s.t)), [s.t])
+
     def str_concat(self, a, b):
         if a.c is not None and b.c is not None:
             return VStr(c=a.c + b.c)
-        return self.opaque_str("cat", tid(self.str_term(a)), tid(self.str_term(b)))
+        # concatenation is associative: a string is identified by the flat sequence of its pieces, adjacent literals merged
+        parts = []
+        for x in self.str_parts(a) + self.str_parts(b):
+            if isinstance(x, str) and parts and isinstance(parts[-1], str):
+                parts[-1] = parts[-1] + x
+            else:
+                parts.append(x)
+        if len(parts) == 1 and not isinstance(parts[0], str):
+            return VStr(t=parts[0])
+        r = self.opaque_str("cat", *[("c", x) if isinstance(x, str) else tid(x) for x in parts])
+        self.path.memo[("strparts", tid(r.t))] = parts
+        return r
 
     # ------------------------------------------------------------------------------------------
     # module / class namespace
@@ -757,22 +774,27 @@ class Interp:
         return d
 
     def ev_JoinedStr(self, node, fr):
-        conc = True
-        parts = []
+        # an f-string is the concatenation of its literal pieces and the formatted values; a str value without
+        # conversion / format spec formats as itself, anything else as an uninterpreted function of the value
+        out = VStr(c="")
         for p in node.values:
             if isinstance(p, ast.Constant):
-                parts.append(p.value)
+                piece = VStr(c=p.value)
             else:
-                v = self.ev(p.value, fr)       # evaluated for its raise points
-                if isinstance(v, VStr) and v.c is not None and p.format_spec is None:
-                    parts.append(v.c)
-                elif isinstance(v, VInt) and v.c is not None and p.format_spec is None:
-                    parts.append(str(v.c))
+                v = self.resolve(self.ev(p.value, fr))       # evaluated for its raise points
+                plain = p.format_spec is None and p.conversion == -1
+                if isinstance(v, VStr) and plain:
+                    piece = v
+                elif isinstance(v, VInt) and v.c is not None and plain and not isinstance(v, VBool) and getattr(v, "enum", None) is None:
+                    piece = VStr(c=str(v.c))
                 else:
-                    conc = False
-        if conc:
-            return VStr(c="".join(parts))
-        return self.opaque_str("f", id(node))
+                    try:
+                        k = self.B.deep_key(self, v)
+                    except Unsupported:
+                        k = ("node", id(node), fresh("fv"))
+                    piece = self.opaque_str("fmt", k, ast.dump(p.format_spec) if p.format_spec is not None else None, p.conversion)
+            out = self.str_concat(out, piece)
+        return out
 
     def ev_FormattedValue(self, node, fr):
         self.ev(node.value, fr)
